@@ -14,6 +14,8 @@ CONSTANTS
   none = none
   Latitude = {"PutBadRefused", "PutBadStored", "AuthzRefused", "AuthzAsAuthcid"}
   Scope = "medium"
+  Profile = "dict"
+  Open = {}
 VIEW BaseView
 INVARIANT AtMostOneActive
 INVARIANT ActiveIsStored
